@@ -1072,7 +1072,25 @@ def check_overrides_forward(ctx: Ctx) -> None:
     ctx.floor("16.5-forwarded", 3)
 
 
+def check_approximation_point(ctx: Ctx) -> None:
+    """16.7: the discipline-level approximation differentiates the function "outputs of the discipline as a function of
+    the differentiated inputs, the OTHER inputs being those of the point of linearisation".  The function is built by
+    ``DisciplineAdapterGenerator.get_function(input_names, output_names, default_input_data=...)``: without the third
+    argument the other inputs are the discipline's default values (F47)."""
+    f = ctx.index.method(DA, "DisciplineJacApprox", "_create_approximator")
+    con = cname(DA, "DisciplineJacApprox", "_create_approximator")
+    calls_ = [c for c in walk_body(f) if isinstance(c, ast.Call) and last_attr(c) == "get_function"]
+    ctx.need(len(calls_) == 1, "_create_approximator: the function to differentiate (generator.get_function) was not found")
+    v = kwarg(calls_[0], "default_input_data") or (calls_[0].args[2] if len(calls_[0].args) > 2 else None)
+    # ... or the defaults are set from the current data around the approximation
+    g = ctx.index.method(DA, "DisciplineJacApprox", "compute_approx_jac")
+    sets_defaults = any(isinstance(c, ast.Call) and isinstance(c.func, ast.Attribute) and c.func.attr == "update" and (dotted(c.func.value) or "").endswith("defaults") and "io.data" in norm_stmt(c, 300) for c in walk_body(g))
+    ok = (v is not None and "data" in norm_stmt(v, 200)) or sets_defaults
+    ctx.ob("16.7-approximation-point", con, ok, "the inputs that are not differentiated must take the values of the point of linearisation (the discipline's current data), not the default values: with a subset of differentiated inputs the approximated Jacobian is that of another point", node=calls_[0], stmt="non-differentiated inputs at the point of linearisation")
+
+
 def run(ctx: Ctx) -> None:
+    check_approximation_point(ctx)
     check_overrides_forward(ctx)
     check_bound_sources(ctx)
     check_variable_indices(ctx)
